@@ -1050,6 +1050,173 @@ Proof.
   exists s. exact Hs.
 Qed.
 
+(* ================================================================== *)
+(* 8. Coherence over executions                                         *)
+(* ================================================================== *)
+
+(* from e to e': the atomic a stays, live slots stay live, no mo edge between
+   live stores is lost, and whatever a thread's clock has seen it still sees *)
+Definition coh (a : nat) (e e' : exec) : Prop :=
+  forall s, get_atomic e a = Some s ->
+    exists s', get_atomic e' a = Some s' /\
+      (forall x, x < at_cnt s -> x < at_cnt s') /\
+      (forall x y, x < at_cnt s -> y < at_cnt s ->
+         vv_lt (mo s x) (mo s y) = true -> vv_lt (mo s' x) (mo s' y) = true) /\
+      (forall u i, u < MAX_THREADS -> i < at_cnt s ->
+         is_seen_by_current (st_seen (get_store s i)) (caus_of e u) = true ->
+         is_seen_by_current (st_seen (get_store s' i)) (caus_of e' u) = true).
+
+Lemma coh_refl a e : coh a e e.
+Proof. intros s Hs. exists s. split; [exact Hs|]. repeat split; auto. Qed.
+
+Lemma coh_trans a e1 e2 e3 : coh a e1 e2 -> coh a e2 e3 -> coh a e1 e3.
+Proof.
+  intros H12 H23 s Hs. destruct (H12 s Hs) as (s2 & Hs2 & A2 & B2 & C2).
+  destruct (H23 s2 Hs2) as (s3 & Hs3 & A3 & B3 & C3).
+  exists s3. split; [exact Hs3|]. split; [auto|]. split.
+  - intros x y Hx Hy H. apply B3; auto.
+  - intros u i Hu Hi H. apply C3; auto.
+Qed.
+
+(* a step of the generalised machine on the padded clocks *)
+Lemma bstep_coh : forall a e e1 me b s s1,
+  get_atomic e a = Some s -> get_atomic e1 a = Some s1 -> GoodS (s, pclocks e) ->
+  bstep (s, pclocks e) me b = Some (s1, pclocks e1) -> coh a e e1.
+Proof.
+  intros a e e1 me b s s1 Hs Hs1 HG Hstep s0 Hs0. rewrite Hs in Hs0. injection Hs0 as <-.
+  exists s1. split; [exact Hs1|].
+  assert (Hcnt : at_cnt s <= at_cnt s1).
+  { destruct HG as [[own [rk HGO]] HS]. cbn [fst snd] in *.
+    destruct (@bstep_out own rk s (pclocks e) me b s1 (pclocks e1) HGO HS Hstep)
+      as [own' [rk' [_ [_ [[Hc _] _]]]]]. exact Hc. }
+  split; [intros x Hx; lia|]. split.
+  - intros x y Hx Hy Hlt.
+    destruct (@bstep_stable (s, pclocks e) me b (s1, pclocks e1) x y HG Hstep Hx Hy Hlt) as (_ & _ & H).
+    exact H.
+  - intros u i Hu Hi Hk.
+    assert (Hk0 : knows (s, pclocks e) u i).
+    { unfold knows. cbn [fst snd]. rewrite clk_pclocks by exact Hu. exact Hk. }
+    destruct (@bstep_knows (s, pclocks e) me b (s1, pclocks e1) u i HG Hstep Hi Hk0) as (_ & H).
+    unfold knows in H. cbn [fst snd] in H. rewrite clk_pclocks in H by exact Hu. exact H.
+Qed.
+
+(* a micro-operation that is not an access to a *)
+Lemma frame_coh : forall a e me m e1,
+  track_ok e -> ~ acc_on a m -> exec_micro e me m = MOk e1 -> coh a e e1.
+Proof.
+  intros a e me m e1 Htr Hna Hx s Hs.
+  destruct (exec_micro_akeep_ok a e me m e1 Htr Hna Hx s Hs) as (s' & Hs' & (A & B & C)).
+  exists s'. split; [exact Hs'|].
+  assert (Hget : forall k, get_store s' k = get_store s k) by (intros k; unfold get_store; rewrite A; reflexivity).
+  split; [intros x Hx'; rewrite B; exact Hx'|]. split.
+  - intros x y _ _ H. unfold mo. rewrite !Hget. exact H.
+  - intros u i _ _ H. rewrite Hget.
+    destruct (exec_micro_mono_ok _ _ _ _ Hx) as (_ & Hc & _).
+    apply (seen_clock_mono _ _ _ (Hc u) H).
+Qed.
+
+Lemma pop_coh : forall a e me rest, coh a e (upd_thread e me (fun t => th_set_cont t rest)).
+Proof.
+  intros a e me rest s Hs. exists s. split; [exact Hs|]. split; [auto|]. split; [auto|].
+  intros u i _ _ H. rewrite caus_of_upd_thread_keep by (intros t; reflexivity). exact H.
+Qed.
+
+Lemma steps_coh_from : forall p pa a, RunOK p pa a ->
+  forall e e', steps e e' -> steps (init_exec p pa) e -> clock_wf e -> track_ok e ->
+  GoodAt a e -> coh a e e'.
+Proof.
+  intros p pa a Hok e e' H.
+  induction H as [e|e me t m rest e1 e2 Hact Ht Hc Hx Hs IH]; intros Hreach Hcw Htr HG.
+  - apply coh_refl.
+  - destruct (pop_cont_wf e me rest Hcw Htr) as [Hcw0 Htr0].
+    destruct (pop_cont_frame e me rest) as [Hp0 Hg0].
+    set (e0 := upd_thread e me (fun t => th_set_cont t rest)) in *.
+    assert (HG0 : GoodAt a e0).
+    { destruct HG as (s & Hs0 & HGs). exists s. split; [rewrite Hg0; exact Hs0 | rewrite Hp0; exact HGs]. }
+    assert (Hreach1 : steps (init_exec p pa) e1).
+    { eapply steps_trans; [exact Hreach|]. eapply steps_step; [exact Hact|exact Ht|exact Hc|exact Hx|apply steps_refl]. }
+    assert (Hone : steps e e1).
+    { eapply steps_step; [exact Hact|exact Ht|exact Hc|exact Hx|apply steps_refl]. }
+    destruct (steps_goodAt_from p pa a Hok e e1 Hone Hreach Hcw Htr HG) as (HG1 & Hcw1 & Htr1).
+    eapply coh_trans; [|apply (IH Hreach1 Hcw1 Htr1 HG1)].
+    eapply coh_trans; [apply (pop_coh a e me rest)|]. fold e0.
+    destruct HG0 as (s & Hs0 & HGs).
+    destruct (acc_on_dec a m) as [Ha|Hna].
+    + assert (Hth0 : get_thread e0 me = Some (th_set_cont t rest)).
+      { unfold e0. rewrite get_thread_upd_thread_same. unfold get_thread. rewrite Ht. reflexivity. }
+      pose proof (Hok e me t m rest Hreach Hact Ht Hc Ha) as Hside. fold e0 in Hside.
+      destruct (acc_step_is_bstep a e0 me m e1 s _ Ha Hth0 Hs0 HGs Hside Hx)
+        as (s1 & b & Hb & Hme & Hs1 & Hstep).
+      pose proof (access_step_padded e0 e1 me b s s1 Hb (proj1 Hside) Hme Hstep) as Hp.
+      apply (bstep_coh a e0 e1 me b s s1 Hs0 Hs1 HGs Hp).
+    + apply (frame_coh a e0 me m e1 Htr0 Hna Hx).
+Qed.
+
+(* an mo edge between live stores of a is never lost along an execution *)
+Theorem steps_stable : forall p pa a s0 e e' s x y,
+  get_atomic (init_exec p pa) a = Some s0 -> RunOK p pa a ->
+  steps (init_exec p pa) e -> steps e e' ->
+  get_atomic e a = Some s -> x < at_cnt s -> y < at_cnt s -> vv_lt (mo s x) (mo s y) = true ->
+  exists s', get_atomic e' a = Some s' /\ x < at_cnt s' /\ y < at_cnt s' /\
+             vv_lt (mo s' x) (mo s' y) = true.
+Proof.
+  intros p pa a s0 e e' s x y Hs0 Hok Hr H Hs Hx Hy Hlt.
+  destruct (steps_goodAt_from p pa a Hok _ e Hr (steps_refl _) (init_clock_wf p pa)
+              (init_exec_track_ok p pa) (init_goodAt p pa a s0 Hs0)) as (HG & Hcw & Htr).
+  destruct (steps_coh_from p pa a Hok e e' H Hr Hcw Htr HG s Hs) as (s' & Hs' & A & B & _).
+  exists s'. split; [exact Hs'|]. split; [apply A; exact Hx|]. split; [apply A; exact Hy|].
+  apply B; assumption.
+Qed.
+
+(* what a thread's clock has seen, it sees for ever *)
+Theorem steps_knows : forall p pa a s0 e e' s u i,
+  get_atomic (init_exec p pa) a = Some s0 -> RunOK p pa a ->
+  steps (init_exec p pa) e -> steps e e' ->
+  get_atomic e a = Some s -> u < MAX_THREADS -> i < at_cnt s ->
+  is_seen_by_current (st_seen (get_store s i)) (caus_of e u) = true ->
+  exists s', get_atomic e' a = Some s' /\ i < at_cnt s' /\
+             is_seen_by_current (st_seen (get_store s' i)) (caus_of e' u) = true.
+Proof.
+  intros p pa a s0 e e' s u i Hs0 Hok Hr H Hs Hu Hi Hk.
+  destruct (steps_goodAt_from p pa a Hok _ e Hr (steps_refl _) (init_clock_wf p pa)
+              (init_exec_track_ok p pa) (init_goodAt p pa a s0 Hs0)) as (HG & Hcw & Htr).
+  destruct (steps_coh_from p pa a Hok e e' H Hr Hcw Htr HG s Hs) as (s' & Hs' & A & _ & C).
+  exists s'. split; [exact Hs'|]. split; [apply A; exact Hi | apply C; assumption].
+Qed.
+
+(* CoRR / CoWR over executions: once thread t's clock has seen store j of a and
+   i is mo-before j, store i is never again a candidate of a load (or an RMW) of
+   t -- whatever last_yield and ordering, after any further steps of any threads *)
+Theorem CoRR_CoWR_steps : forall p pa a s0 e e' s t i j,
+  get_atomic (init_exec p pa) a = Some s0 -> RunOK p pa a ->
+  steps (init_exec p pa) e -> steps e e' ->
+  get_atomic e a = Some s -> t < MAX_THREADS -> i < at_cnt s -> j < at_cnt s ->
+  vv_lt (mo s i) (mo s j) = true ->
+  is_seen_by_current (st_seen (get_store s j)) (caus_of e t) = true ->
+  exists s', get_atomic e' a = Some s' /\
+    (forall ly o l, match_load_to_stores s' t (vv_inc (caus_of e' t) t) ly o = Some l -> ~ In i l) /\
+    (forall l, match_rmw_to_stores s' = Some l -> ~ In i l).
+Proof.
+  intros p pa a s0 e e' s t i j Hs0 Hok Hr H Hs Ht Hi Hj Hlt Hk.
+  destruct (steps_goodAt_from p pa a Hok _ e Hr (steps_refl _) (init_clock_wf p pa)
+              (init_exec_track_ok p pa) (init_goodAt p pa a s0 Hs0)) as (HG & Hcw & Htr).
+  destruct (steps_coh_from p pa a Hok e e' H Hr Hcw Htr HG s Hs) as (s' & Hs' & A & B & C).
+  exists s'. split; [exact Hs'|].
+  pose proof (B i j Hi Hj Hlt) as Hlt'. pose proof (C t j Ht Hj Hk) as Hk'.
+  pose proof (A j Hj) as Hj'.
+  destruct (steps_goodAt_from p pa a Hok e e' H Hr Hcw Htr HG) as ((s2 & Hs2 & HG2) & _ & _).
+  rewrite Hs' in Hs2. injection Hs2 as <-.
+  assert (Hj7 : j < MAX_ATOMIC_HISTORY).
+  { destruct HG2 as [[own [rk [HI _]]] _]. cbn [fst] in HI. pose proof (i_cnt7 HI). lia. }
+  split.
+  - intros ly o l Hm Hin.
+    apply (coherence_write_read _ _ _ _ _ _ _ _ Hm Hj7 Hj' Hlt'); [|exact Hin].
+    apply (seen_clock_mono _ _ _ (vle_inc (caus_of e' t) t) Hk').
+  - intros l Hm Hin. apply (rmw_candidates_spec _ _ Hm i) in Hin. destruct Hin as (_ & _ & Hall).
+    assert (Hne : j <> i) by (intros E; subst j; unfold mo in Hlt'; rewrite vv_lt_irrefl in Hlt'; discriminate).
+    unfold mo in Hlt'. rewrite (Hall j Hj7 Hj' Hne) in Hlt'. discriminate.
+Qed.
+
 Print Assumptions exec_micro_akeep.
 Print Assumptions growto_goodS.
 Print Assumptions exec_growto.
@@ -1065,3 +1232,7 @@ Print Assumptions acc_step_is_bstep.
 Print Assumptions run_goodAt.
 Print Assumptions run_atomicity.
 Print Assumptions run_never_none.
+Print Assumptions steps_coh_from.
+Print Assumptions steps_stable.
+Print Assumptions steps_knows.
+Print Assumptions CoRR_CoWR_steps.
